@@ -13,6 +13,7 @@ from sqvm.qv import QV
 from sqvm.machine import Program
 from sqvm import abstract
 from sqvm.corpus import all_sources, std_sources, example_sources, test_sources, spec_sources
+from sqvm.gen_tail import programs as gen_tail_programs
 
 
 class MiniProgram:
@@ -93,12 +94,19 @@ class _LazyList:
 
 
 def _analyze(args):
-    mini, timeout_ms = args
+    mini, timeout_ms, cross = args
     view = _View(mini)
     # abstract.check_function indexes program.functions[fid]; give it the function under test
     view.functions = _MainFirst(view.functions, view.main)
-    r = abstract.check_function(view, "main", timeout_ms=timeout_ms)
-    return {"verdict": r.verdict, "violations": r.violations, "static": r.static, "tailcalls": r.tailcalls,
+    r = abstract.check_function_blocks(view, "main", timeout_ms=timeout_ms)
+    agree = None
+    if cross:
+        # cross-validation of the two encodings (per-instruction Int vs basic-block BV16)
+        r2 = abstract.check_function(view, "main", timeout_ms=timeout_ms)
+        k1 = sorted(set(v["kind"] for v in r.violations))
+        k2 = sorted(set(v["kind"] for v in r2.violations))
+        agree = (r.verdict == r2.verdict)
+    return {"agree": agree, "verdict": r.verdict, "violations": r.violations, "static": r.static, "tailcalls": r.tailcalls,
             "solver_s": r.solver_s, "nodes": r.nodes, "edges": r.edges, "assertions": r.assertions,
             "cycle": getattr(r, "cycle", None)}
 
@@ -127,12 +135,9 @@ def select_sources(tier, seed):
         if s not in seen:
             seen.add(s)
             uniq.append((n, s))
-    if tier == "quick":
-        rnd = random.Random(seed)
-        k = max(1, len(uniq) // 3)
-        uniq = rnd.sample(uniq, k) if len(uniq) > k else uniq
-        uniq.sort()
-    return srcs + uniq
+    # generated tail-call shapes: function kind x argument form x target x syntactic position
+    gen = [(n, src) for n, src in gen_tail_programs() if src not in seen]
+    return srcs + uniq + gen
 
 
 def validate_effect_table(qv, prog, h, max_steps=200000):
@@ -265,7 +270,9 @@ def run(prop, rep, want):
         if "c07" not in want:
             items = [(mini, occ) for (mini, occ) in items if any(i[0] == "TailCall" for i in mini.instrs)]
         with mp.Pool(16) as pool:
-            results = pool.map(_analyze, [(mini, timeout_ms) for mini, _ in items], chunksize=8)
+            every = 25 if tier == "quick" else 2
+            results = pool.map(_analyze, [(mini, timeout_ms, (k % every == 0)) for k, (mini, _) in enumerate(items)],
+                               chunksize=8)
 
         tailcall_sites = 0
         for (mini, occ), r in zip(items, results):
@@ -275,6 +282,10 @@ def run(prop, rep, want):
             rep.solver_s += r["solver_s"]
             tailcall_sites += r["tailcalls"]
             where = "%s [%s] fn %d" % (occ["source"], occ["variant"], occ["fid"])
+            if r["agree"] is not None:
+                rep.extra["encodings_cross_validated"] = rep.extra.get("encodings_cross_validated", 0) + 1
+                if r["agree"] is False:
+                    rep.inconc("%s: the two encodings disagree" % where)
             if "c16" in want and "c07" not in want and r["tailcalls"] == 0:
                 continue
             if "c07" in want:
@@ -324,7 +335,6 @@ def run(prop, rep, want):
     })
     rep.functions = ["every function of every compiled corpus program (%d unique of %d occurrences)" % (len(uniq), occurrences)]
     rep.bounds = {"paths": "all control-flow paths of each function (CFG proven acyclic per function)",
-                  "programs": "corpus: std/*.qv, examples, %s of the test-suite source strings and spec examples"
-                              % ("one third (seeded)" if tier == "quick" else "all"),
+                  "programs": "corpus: std/*.qv, examples, all test-suite source strings and spec examples, plus a generated family of tail-call shapes (sqvm/gen_tail.py: 6 function kinds x 9 argument forms x 3 targets x 12 positions, those the compiler accepts)",
                   "merge histories": "%d groups of 4 programs merged into one real Environment" % variants["merged"]}
     return rep
